@@ -78,6 +78,8 @@ pub fn run(a: &Args) {
             },
         }
     };
+    // cases named after a shipped file are replayed by re-running the harness and looking the case up (exit 3 = ask the driver to do that)
+    if let Some(r) = &a.replay { if r.starts_with('/') { println!("UNSUPPORTED-REPLAY"); std::process::exit(3); } }
     if let Some(r) = &a.replay { if let Some(rest) = r.strip_prefix("big ") { let t: Vec<&str> = rest.split_whitespace().collect(); let (fmt, b) = gen_big(t[0], t[1].parse().unwrap());
         match parse_write(fmt, &b) { Some(Ok((w, _, pos))) if pos == b.len() && w == b => { println!("PASS"); std::process::exit(0) }, other => { println!("FAIL [C17] canonical file `{r}` ({} bytes): {}", b.len(), match other { Some(Ok((w, _, _))) => format!("re-writes to {} bytes / differs", w.len()), Some(Err(())) => "rejected or cannot be written back".into(), None => "panic".into() }); std::process::exit(1) } } } }
     if let Some(r) = &a.replay { let t: Vec<&str> = r.split_whitespace().collect(); let mut st = Stats::default(); let o = check(if t[0] == "pth" { Fmt::Pth } else { Fmt::Smx }, &unhex(t[1]), t.get(2) == Some(&"canonical"), &mut st); if st.failures_total > 0 { println!("FAIL {}", st.failures[0].0.len()); std::process::exit(1) } else { println!("PASS {}", &o[..o.len().min(60)]); return } }
@@ -135,7 +137,10 @@ pub fn run(a: &Args) {
         if o == "E" { st.fail(format!("[C17] the shipped file {path} is rejected"), path.into()); }
         let okp = guard(|| match fmt { Fmt::Pth => Pth::from_pathbuf(&path.into()).is_ok() && Pth::from_file(&mut std::fs::File::open(path).unwrap()).is_ok(), Fmt::Smx => Smx::from_pathbuf(&path.into()).is_ok() && Smx::from_file(&mut std::fs::File::open(path).unwrap()).is_ok() });
         if okp != Some(true) { st.fail(format!("[C17] from_file / from_pathbuf fail on {path}"), path.into()); }
-        let step = if a.thorough() { 1 } else { (b.len() / 400).max(1) };
+        // a cut file is parsed up to the cut, so all cut points of an n-byte file cost n^2 / 2 bytes: thorough takes every cut point of
+        // the first and last 8 KB and ~40 000 evenly spread ones in between (every one for a file below 48 KB), quick takes 400
+        let step = if a.thorough() { (b.len() / 40_000).max(1) } else { (b.len() / 400).max(1) };
+        if a.thorough() { let mut k = 0; while k < b.len() { if k >= 8192 && k + 8192 < b.len() { k = b.len() - 8192; } st.evaluations += 1; if check(fmt, &b[..k], false, &mut st) != "E" { st.fail(format!("[C17] {path} cut to {k} bytes is accepted"), format!("{} cut {k}", path)); } k += 1; } }
         let mut k = 0; while k < b.len() { st.evaluations += 1; if check(fmt, &b[..k], false, &mut st) != "E" { st.fail(format!("[C17] {path} cut to {k} bytes is accepted"), format!("{} cut {k}", path)); } k += step; }
         // a truncated temp file through from_pathbuf
         let tmp = std::env::temp_dir().join(format!("vharness_c17_{}", std::process::id())); std::fs::write(&tmp, &b[..b.len() - 1]).unwrap();
@@ -159,9 +164,18 @@ pub fn run(a: &Args) {
                 if viaf != want { st.fail(format!("[C17] after a rejected load ({name}) from_file on the intact {path} differs"), format!("{path} seq {name}")); }
             }
             for (_, pth) in &cases { let _ = std::fs::remove_file(pth); }
+            // every prefix of up to 96 bytes (the header, the counts, the first element) through the file API, which may do its own
+            // checks before parsing: rejected, never a panic
+            for k in 0..96usize.min(b.len()) {
+                let pth = t("prefix", &b[..k]); st.evaluations += 1;
+                let r = guard(|| match fmt { Fmt::Pth => Pth::from_pathbuf(&pth).is_ok(), Fmt::Smx => Smx::from_pathbuf(&pth).is_ok() });
+                let r2 = guard(|| { let mut f = std::fs::File::open(&pth).unwrap(); match fmt { Fmt::Pth => Pth::from_file(&mut f).is_ok(), Fmt::Smx => Smx::from_file(&mut f).is_ok() } });
+                let _ = std::fs::remove_file(&pth);
+                if r != Some(false) || r2 != Some(false) { st.fail(format!("[C17] the first {k} bytes of {path} through from_pathbuf / from_file: {}", if r.is_none() || r2.is_none() { "panic" } else { "accepted" }), format!("{path} prefix {k}")); }
+            }
             st.bump("load sequences: rejected file then intact file (from_pathbuf / from_file)");
         }
-        if a.thorough() { st.exhaustive.push(format!("every cut point of {path} ({} bytes)", b.len())); }
+        if a.thorough() { st.exhaustive.push(format!("every cut point of the first and last 8 KB of {path} ({} bytes){}", b.len(), if step == 1 { " and of everything in between" } else { " and evenly spread ones in between" })); }
     }
     st.rule = "real Pth / Smx BinRead + BinWrite under catch_unwind and a counting global allocator: generated files (0..n nodes / objects / points / triangles / checkpoints, NaN and all-ones payloads, canonical and dirty pads/text), every truncation point of small files, an appended byte, hostile counts (negative, 2^31-1, 2^30, larger than the content) in every count field, random bytes with and without the magic, the two shipped files (canonical re-write, from_file, from_pathbuf, cut points); peak allocation <= 16 x input + 256 KB".into();
     st.sample("pth 4c4653505448 0000 ffffffff 00000000 (count -1) -> E".into());
